@@ -1,6 +1,6 @@
-(* C01 refinement lemma, block move MVN (one byte per Step; see C01JmpBase.v, C01JmpTac.v).
+(* C01 refinement lemma, block move MVP (one byte per Step; see C01JmpBase.v, C01JmpTac.v).
 
-   snapshot_dep: op_mvn, nRead, nWrite *)
+   snapshot_dep: op_mvp, nRead, nWrite *)
 From Coq Require Import ZArith NArith List Bool Lia.
 From Spec Require Import ISA Spec816.
 From Lib Require Import ZOps Machine.
@@ -14,4 +14,4 @@ Arguments Z.land : simpl never.
 Arguments Z.shiftl : simpl never.
 Arguments Z.shiftr : simpl never.
 
-Lemma ref_54 : refines_op 84. Proof. block_move 84 op_mvn MVN. Qed.
+Lemma ref_44 : refines_op 68. Proof. block_move 68 op_mvp MVP. Qed.
